@@ -88,7 +88,9 @@ def gen_fit_case(g):
     if c["container"] == "3d":
         c["lens"] = [lens[0]] * nseq
         c["warmup"] = min(c["warmup"], lens[0] - 1)
-    if (c["refit"] or c["failed_between"]) and topo != "esn":
+    if topo != "esn" and not c["refit"] and not c["failed_between"] and not fb and g.chance(0.3):
+        c["stateful"] = False
+    if (c["refit"] or c["failed_between"] or c.get("stateful") is False) and topo != "esn":
         # an earlier fit leaves the external equation's internal_state behind, which no reset clears (finding K4 of
         # C08): histories are generated for the internal equation only
         for d in descs:
@@ -156,7 +158,7 @@ def explicit_python(c, X, Y, names=None):
     parents = dict(enumerate(order_parents(edges, n, names)))
     outs = {v: [None] * len(X) for v in range(n)}
     W = {}
-    reset_each = c["topo"] == "esn"
+    reset_each = c["topo"] == "esn" or c.get("stateful") is False
     for v in range(n):          # descriptors are in topological order
         d = descs[v]
         ins = []
@@ -248,6 +250,10 @@ def check_fit(ctx, c):
             kw = {}
             if not c.get("force_teachers", True):
                 kw["force_teachers"] = False
+            if c.get("stateful") is False:
+                # a non-stateful fit: every sequence starts from the state the model had before the fit (zero for this
+                # fresh model) and the states are restored afterwards
+                kw["stateful"] = False
             if c.get("refit") or c.get("failed_between"):
                 # (single-sequence cases only: the final fit then starts from reset states, like the explicit procedure)
                 def named(Ys):
@@ -308,13 +314,13 @@ def check_fit(ctx, c):
             x["mem0"] = flow.qmat(flow.init_mem(d))
             dn.append(x)
     mcase = {"kind": "explicit_fit", "regime": "E", "nodes": dn, "order": list(range(n)), "parents": parents, "fb": fbl,
-             "warmup": c["warmup"], "reset_each_sequence": c["topo"] == "esn", "force_teachers": c.get("force_teachers", True),
+             "warmup": c["warmup"], "reset_each_sequence": c["topo"] == "esn" or c.get("stateful") is False, "force_teachers": c.get("force_teachers", True),
              "seqs": [{"X": {"0": flow.qmat(X[s])}, "Y": {str(i): flow.qmat(Y[i][s]) for i in ridge_idx}} for s in range(len(X))]}
     mo = ctx.model.one(mcase)
     if mo[0] != "ok":
         raise common.FrameworkError("model rejected a C06 fit case: " + mo[1])
     ctx.count(c, nontrivial=len(ridge_idx) >= 1 and sum(c["lens"]) - c["warmup"] * len(c["lens"]) >= 2, obligation=ob)
-    ctx.stat(f"force_teachers={c.get('force_teachers', True)} refit={bool(c.get('refit'))} failed_between={c.get('failed_between')}")
+    ctx.stat(f"force_teachers={c.get('force_teachers', True)} refit={bool(c.get('refit'))} failed_between={c.get('failed_between')} stateful={c.get('stateful', True)}")
     ctx.stat(f"fit topo={c['topo']} nseq={len(c['lens'])} warmup={c['warmup']} targets={c['targets_as']} container={c['container']} fb={bool(c['fb'])}")
     ctx.sample({k: c[k] for k in ("topo", "lens", "warmup", "container", "targets_as", "fb")})
     for i in ridge_idx:
